@@ -137,17 +137,11 @@ def coherencePartialSpec (fxy fxx fyy fxr fry frr : K) : K :=
 
 /-- partial coherence of channels i, j given channel r of one spectral matrix, with the
     cross-spectra in the orientation the formula needs: f_ir and f_rj (= conj f_jr).
-    INTENDED behaviour of `coherence_partial` / `CoherenceAnalyzer.coherence_partial`. -/
+    This is what `coherence_partial` (get_spectra_bi(x, r), get_spectra_bi(r, y)) and
+    `CoherenceAnalyzer.coherence_partial` (csd(i, k), csd(k, j)) pass. -/
 def partialOf (spec : Nat → Nat → Nat → K) (i j r k : Nat) : K :=
   coherencePartialSpec (hermSpec spec i j k) (spec i i k) (spec j j k)
     (hermSpec spec i r k) (hermSpec spec r j k) (spec r r k)
-
-/-- what today's callers pass: f_ir and f_jr, both "signal → common cause" (CURRENT behaviour of
-    `coherence_partial`; kept for the counterexample theorem and so that the correspondence can
-    tell "still the recorded defect" from "something new") -/
-def partialOfCurrent (spec : Nat → Nat → Nat → K) (i j r k : Nat) : K :=
-  coherencePartialSpec (hermSpec spec i j k) (spec i i k) (spec j j k)
-    (hermSpec spec i r k) (hermSpec spec j r k) (spec r r k)
 
 /-- `np.angle(fxy[i][j])` above the diagonal, `np.angle(fxy[i][j].conjugate())` below;
     the diagonal as `CoherenceAnalyzer.phase` fills it (first the angle, then the angle of the
@@ -161,9 +155,9 @@ def delayOf (phase f : K) : K := div phase (mul twoPi f)
 /-- frequency of bin k as mlab reports it: `np.fft.fftfreq(NFFT, 1/Fs)[k]` (last one sign-fixed) -/
 def welchFreq (Fs : K) (NFFT k : Nat) : K := div (mul (ofNat k) Fs) (ofNat NFFT)
 
-/-- CURRENT `utils.get_freqs(Fs, N)[k]` = `np.linspace(0, Fs/2, N/2 + 1)[k]`: k · ((Fs/2) / (num − 1)) -/
-def linspaceFreq (Fs : K) (N k : Nat) : K :=
-  mul (ofNat k) (div (div Fs (ofNat 2)) (ofNat (N / 2 + 1 - 1)))
+/-- `utils.get_freqs(Fs, N)[k]` = `(np.fft.rfftfreq(N) * Fs)[k]` = (k · (1/N)) · Fs — the frequency vector of
+    the cache, of SparseCoherenceAnalyzer and of SeedCoherenceAnalyzer -/
+def rfftFreq (Fs : K) (N k : Nat) : K := mul (mul (ofNat k) (div (ofNat 1) (ofNat N))) Fs
 
 /-! ### multitaper coherence (`MTCoherenceAnalyzer.coherence`, `mtm_cross_spectrum`) -/
 
@@ -227,24 +221,14 @@ def cacheCoherency (conjCached : Bool) (w : List K) (nv : K) (NFFT step : Nat) (
   let Pyy := div (winMean L fun s => mul (Fj s t) (Cj s t)) nv
   div Pxy (sqrt (mul Pxx Pyy))
 
-/-- INTENDED `cache_to_psd(cache, ij)[i][t]`: the one-sided correction belongs to the DC and (even
-    NFFT) Nyquist bins of the full grid, wherever the band starts -/
+/-- `cache_to_psd(cache, ij)[i][t]`: the one-sided correction (`Pxx[i][cache['edge_idx']] /= 2`) belongs to
+    the DC and (even NFFT) Nyquist bins of the full grid, wherever the band starts -/
 def cachePsd (conjCached : Bool) (w : List K) (nv : K) (NFFT step : Nat) (x : List K) (lbIdx t : Nat) : K :=
   let L := nSeg x.length NFFT step
   let F := cachedSlice w NFFT step x lbIdx
   let C := cachedConj conjCached w NFFT step x lbIdx
   let P := div (winMean L fun s => mul (F s t) (C s t)) nv
   mul P (div (oneSided NFFT (lbIdx + t)) (ofNat 2))
-
-/-- CURRENT `cache_to_psd`: `Pxx[i][[0, -1]] /= 2` halves the first and last *kept* bin when there
-    are several windows, and the whole (1 × n) row when there is one window -/
-def cachePsdCurrent (conjCached : Bool) (w : List K) (nv : K) (NFFT step : Nat) (x : List K)
-    (lbIdx nKept t : Nat) : K :=
-  let L := nSeg x.length NFFT step
-  let F := cachedSlice w NFFT step x lbIdx
-  let C := cachedConj conjCached w NFFT step x lbIdx
-  let P := div (winMean L fun s => mul (F s t) (C s t)) nv
-  if L > 1 then (if t = 0 ∨ t + 1 = nKept then div P (ofNat 2) else P) else div P (ofNat 2)
 
 /-- `cache_to_relative_phase(cache, ij)[i, j][t]`: mean over windows of the per-window angle -/
 def cacheRelPhase (conjCached : Bool) (w : List K) (NFFT step : Nat) (xi xj : List K) (lbIdx t : Nat) : K :=
@@ -264,9 +248,7 @@ end generic
 
 /-- `get_spectra`: `int(np.ceil(NFFT // 2))` -/
 def denseDefaultOverlap (NFFT : Nat) : Nat := NFFT / 2
-/-- `cache_fft` today: `int(np.ceil(NFFT / 2.0))` -/
-def cacheDefaultOverlapCurrent (NFFT : Nat) : Nat := (NFFT + 1) / 2
-/-- `cache_fft` intended: the same default as the dense path -/
+/-- `cache_fft`: `int(np.ceil(NFFT // 2))`, the same expression -/
 def cacheDefaultOverlap (NFFT : Nat) : Nat := NFFT / 2
 
 /-! ## executable instance: pairs of binary64 -/
@@ -317,18 +299,10 @@ instance : CScalar Cx where
 
 /-! ## Float-level helpers (index arithmetic on real frequency grids) -/
 
-/-- `np.linspace(0, stop, num)` bit for bit: k·(stop/(num−1)), last element set to `stop` -/
-def linspace0 (stop : Float) (num : Nat) : List Float :=
-  if num = 0 then [] else if num = 1 then [0.0] else
-  let step := stop / (num - 1).toFloat
-  (List.range num).map fun k => if k + 1 = num then stop else k.toFloat * step
-
-/-- CURRENT `utils.get_freqs(Fs, n)`: `np.linspace(0, Fs/2, int(n/2 + 1))` -/
-def getFreqsCurrent (Fs : Float) (n : Nat) : List Float := linspace0 (Fs / 2.0) (n / 2 + 1)
-
-/-- INTENDED frequency grid of the cache = the grid of the dense path: k·Fs/NFFT, k ≤ NFFT/2 -/
+/-- `utils.get_freqs(Fs, n)` = `np.fft.rfftfreq(int(n)) * Fs`, bit for bit: (k · (1.0/n)) · Fs -/
 def getFreqs (Fs : Float) (n : Nat) : List Float :=
-  (List.range (n / 2 + 1)).map fun k => k.toFloat * Fs / n.toFloat
+  let val := 1.0 / (n.toFloat * 1.0)
+  (List.range (n / 2 + 1)).map fun k => (k.toFloat * val) * Fs
 
 /-- `np.searchsorted(f, v, 'left')` on an ascending list -/
 def searchLeft (f : List Float) (v : Float) : Nat := (f.takeWhile (· < v)).length
